@@ -17,6 +17,8 @@ REPO = "/repo"
 
 # counters that are oracle evaluations, per property
 EVALS = {
+    "C07": ["C07.knockouts_checked"],
+    "C20": ["C20.model_summaries_judged", "C20.metabolite_summaries_judged", "C20.reaction_summaries_judged"],
     "C02": ["C02.xref_checks_at_optimize", "C02.xref_checks_after_edit"],
     "C01": ["C01.core_checks_at_optimize"],
     "C03": ["C03.outermost_exits_checked"],
@@ -28,6 +30,8 @@ EVALS = {
 }
 
 QUICK_PATHS = {
+    "C07": ["tests/test_core", "tests/test_manipulation", "tests/test_flux_analysis/test_deletion.py"],
+    "C20": ["tests/test_summary"],
     "C02": ["tests/test_core", "tests/test_manipulation", "tests/test_medium", "tests/test_flux_analysis/test_gapfilling.py"],
     "C01": ["tests/test_core/test_model.py", "tests/test_core/test_core_reaction.py", "tests/test_util", "tests/test_manipulation", "tests/test_medium"],
     "C03": ["tests/test_core", "tests/test_util", "tests/test_manipulation", "tests/test_medium"],
